@@ -4,3 +4,7 @@ import Carapace.Props.C03
 import Carapace.Props.C04
 import Carapace.Props.C05
 import Carapace.Props.C06
+import Carapace.Props.C08
+import Carapace.Props.C10
+import Carapace.Props.C11
+import Carapace.Props.C12
